@@ -29,9 +29,17 @@ Proof.
     exists 1%nat. apply (estep1 im s _ _ _ Hf). cbn [Machine.exec i_op i_p0 i_p1 I2 dest_param].
     replace (param_value (lit_param l)) with (Some (lit_value l)) by (destruct l; reflexivity).
     unfold advance. rewrite (put_lv s kk lv d r (lit_value l) 1 Hfr). reflexivity.
+  - destruct (neg_plain _ Hp) as (r0 & Hn & Hnpar & Hpv). rewrite Hn in He. cbn [lift_res] in He.
+    injection He as Hx Hs; subst x ss1. split; [reflexivity|]. rewrite c_rval_neg in *. rewrite Hnpar in *. cbn [move_const code_at] in Hc |- *. destruct Hc as [Hf _].
+    exists 1%nat. apply (estep1 im s _ _ _ Hf). cbn [Machine.exec i_op i_p0 i_p1 I2 dest_param].
+    rewrite Hpv. unfold advance. rewrite (put_lv s kk lv d r r0 1 Hfr). reflexivity.
   - injection He as Hx Hs; subst x ss1. split; [reflexivity|]. rewrite c_rval_macro in *. cbn [move_const code_at] in Hc |- *. destruct Hc as [Hf _].
     exists 1%nat. apply (estep1 im s _ _ _ Hf). cbn [Machine.exec i_op i_p0 i_p1 I2 dest_param]. unfold macro_param.
     rewrite (param_value_of_value (macro mt m) Hp). unfold advance. rewrite (put_lv s kk lv d r (macro mt m) 1 Hfr). reflexivity.
+  - destruct (neg_plain _ Hp) as (r0 & Hn & Hnpar & Hpv). rewrite Hn in He. cbn [lift_res] in He.
+    injection He as Hx Hs; subst x ss1. split; [reflexivity|]. rewrite c_rval_negmacro in *. rewrite Hnpar in *. cbn [move_const code_at] in Hc |- *. destruct Hc as [Hf _].
+    exists 1%nat. apply (estep1 im s _ _ _ Hf). cbn [Machine.exec i_op i_p0 i_p1 I2 dest_param].
+    rewrite Hpv. unfold advance. rewrite (put_lv s kk lv d r r0 1 Hfr). reflexivity.
   - injection He as Hx Hs; subst x ss1. split; [reflexivity|]. rewrite c_rval_var in *. cbn [move_ref code_at dest_param] in Hc |- *. destruct Hc as [Hf _].
     exists 1%nat. apply (estep1 im s _ _ _ Hf). cbn [Machine.exec i_op i_p0 i_p1 I2 read_name bind].
     rewrite (sim_lookup ss s y Hsim). unfold advance. rewrite (put_lv s kk lv d r (lookup ss y) 1 Hfr). reflexivity.
@@ -283,7 +291,9 @@ Lemma c_rval_lv_no_routine kk v : plain_rval mt v = true -> forallb not_routine 
 Proof.
   intros Hp. destruct v; cbn [plain_rval] in Hp; try discriminate.
   - rewrite c_rval_lit. reflexivity.
+  - rewrite c_rval_neg. reflexivity.
   - rewrite c_rval_macro. reflexivity.
+  - rewrite c_rval_negmacro. reflexivity.
   - rewrite c_rval_var. reflexivity.
   - rewrite c_rval_reg. reflexivity.
   - apply andb_true_iff in Hp. destruct Hp as [Hs _]. rewrite c_rval_expr, forallb_app, (c_expr_no_routine rt mt e Hs). reflexivity.
